@@ -183,6 +183,12 @@ be_pair_transfer(struct bufferevent *src, struct bufferevent *dst,
 			BEV_RESET_GENERIC_WRITE_TIMEOUT(dst);
 		else
 			BEV_DEL_GENERIC_WRITE_TIMEOUT(dst);
+		/* The transfer is progress for the sender's write direction */
+		if (evbuffer_get_length(src->output) &&
+		    (src->enabled & EV_WRITE))
+			BEV_RESET_GENERIC_WRITE_TIMEOUT(src);
+		else
+			BEV_DEL_GENERIC_WRITE_TIMEOUT(src);
 	}
 
 	bufferevent_trigger_nolock_(dst, EV_READ, 0);
